@@ -1029,3 +1029,103 @@ def rule_dp_empty_row(ctx, m):
                   'the exit `%s` also fires for a row that has no cells at all (second sequence empty): needleman_wunsch("AB", "") returns -inf although '
                   'the only alignment (two gaps) scores -2, while needleman_wunsch("", "AB") returns -2' % fmt(s.cond), s.line,
                   facts={'witness': {'s1': 'AB', 's2': ''}})
+
+
+# ------------------------------------------------------------------------------------------ local concurrences: consumed-cell marks
+def _reads_same(value, target):
+    return any(x == target for x in walk_expr(value))
+
+
+def rule_lc_marks(ctx, m):
+    """Non-compact LocalConcurrences marks the cells consumed by a match by making them negative (best_path stops at non-positive cells).
+    (a) a sign flip `wp[i] = -wp[i]` is an involution: it is a valid mark only for the per-cell store over the simple path of the match; over
+        a window / slice around the path the windows of neighbouring path cells overlap, so cells (including the path cells) are flipped an
+        even number of times and become positive -- available to later matches -- again; such marks must be idempotent (-abs).
+    (b) the reset used by restart=True / keep=False must undo value marks, not only the mask."""
+    mod = m.py('dtaidistance.subsequence.localconcurrences')
+    f = mod.funcs.get('LocalConcurrences.kbest_matches')
+    g = mod.funcs.get('LocalConcurrences._reset_wp_mask')
+    if f is None or g is None:
+        raise AnalysisError('anchor vanished: LocalConcurrences.kbest_matches / _reset_wp_mask')
+    marks = 0
+    value_marks = False
+
+    def visit(stmts, loopvars, in_path_loop):
+        nonlocal marks, value_marks
+        for s in stmts:
+            if s.k in ('foreach', 'for'):
+                over_path = s.k == 'foreach' and fmt(s.iter) == 'path'
+                lv = set(loopvars)
+                if s.k == 'foreach':
+                    lv |= {x[1] for x in walk_expr(s.target) if x[0] == 'var'}
+                else:
+                    lv.add(s.var)
+                visit(s.body, lv if not over_path else {x[1] for x in walk_expr(s.target) if x[0] == 'var'}, in_path_loop or over_path)
+                continue
+            for blk in sub_blocks(s):
+                visit(blk, loopvars, in_path_loop)
+            if s.k == 'assign' and s.target[0] == 'idx' and s.target[1] == ('var', 'wp') and _reads_same(s.value, s.target):
+                marks += 1
+                value_marks = True
+                v = s.value
+                idem = v[0] == 'un' and v[1] == 'neg' and v[2][0] == 'call' and (dotted(v[2][1]) or '').split('.')[-1] in ('abs', 'fabs', 'absolute')
+                flip = v == ('un', 'neg', s.target)
+                idx = s.target[2]
+                comps = list(idx[1]) if idx[0] == 'tuple' else [idx]
+                has_slice = any(c[0] == 'slice' for c in comps)
+                names = {x[1] for c in comps for x in walk_expr(c) if x[0] == 'var'}
+                # the path cell itself: index built from the path loop's own variables only (e.g. x, y after x += 1; y += 1)
+                window = has_slice or bool(names - loopvars_of_path[0]) if in_path_loop else True
+                inst = 'kbest_matches mark wp[%s]' % fmt(idx)
+                if idem:
+                    ctx.held('R-DUAL', inst, 'idempotent mark')
+                elif flip and not window:
+                    ctx.held('R-DUAL', inst, 'sign flip of the path cell itself (each path cell is visited once)')
+                elif flip and not in_path_loop:
+                    # two whole-row / whole-column slices (negative buffer): the intersection block is flipped twice and the -inf borders become
+                    # +inf, which ends the search; no reuse of a consumed cell has been demonstrated, so C18 is not decided here
+                    ctx.undecided('R-DUAL', inst, 'sign flip over overlapping slices (negative buffer): not a demonstrated reuse')
+                elif flip:
+                    ctx.violation('R-DUAL', mod.path, 'LocalConcurrences.kbest_matches', 'window mark wp[%s]' % fmt(idx),
+                                  'cells around a match are marked as consumed by flipping their sign over a window/slice; windows of neighbouring path cells (and the two '
+                                  'slices) overlap, so some cells -- including cells of this or an earlier match -- are flipped back to positive and can be traced again: '
+                                  'matches reuse cells of earlier matches (use an idempotent mark such as -abs)', s.line)
+                else:
+                    ctx.undecided('R-DUAL', inst, 'unrecognised mark %s' % fmt(v)[:80])
+    loopvars_of_path = [set()]
+    for s in walk_stmts(f.body):
+        if s.k == 'foreach' and fmt(s.iter) == 'path' and any(t.k == 'if' for t in s.body):
+            loopvars_of_path[0] = {x[1] for x in walk_expr(s.target) if x[0] == 'var'}
+            break
+    if not loopvars_of_path[0]:
+        raise AnalysisError('unrecognised shape: per-cell marking loop of kbest_matches')
+    visit(f.body, set(), False)
+    ctx.check(marks >= 1, 'R-DUAL', mod.path, 'LocalConcurrences.kbest_matches', 'marks found', 'no consumed-cell marks found', f.line)
+    # (b) reset
+    if value_marks:
+        noncompact = None
+        for s in g.body:
+            if s.k == 'if' and fmt(s.cond) == 'self.compact':
+                noncompact = s.els
+        if noncompact is None:
+            raise AnalysisError('unrecognised shape: _reset_wp_mask without compact/non-compact branches')
+        aliases = {'wp'}
+        for s in walk_stmts(noncompact):
+            if s.k == 'assign' and s.target[0] == 'var' and fmt(s.value) in ('wp.data', 'self._wp.data', 'self._wp', 'wp'):
+                aliases.add(s.target[1])
+        restores = []
+        for s in walk_stmts(noncompact):
+            if s.k == 'assign':
+                base = s.target
+                while base[0] in ('idx', 'attr') and base != ('attr', ('var', 'wp'), 'data'):
+                    base = base[1]
+                bname = 'wp' if base == ('attr', ('var', 'wp'), 'data') else (base[1] if base[0] == 'var' else None)
+                if bname in aliases and any(x[0] == 'var' and x[1] in aliases for x in walk_expr(s.value)) and s.target[0] != 'var':
+                    restores.append(s)
+            for e in stmt_exprs(s):
+                for x in walk_expr(e):
+                    if x[0] == 'call' and (dotted(x[1]) or '').split('.')[-1] in ('negative', 'abs', 'absolute', 'copyto') and any(k == 'out' for k, _ in x[3] if k):
+                        restores.append(s)
+        ctx.check(bool(restores), 'R-DUAL', mod.path, 'LocalConcurrences._reset_wp_mask', 'reset undoes value marks',
+                  'kbest_matches (non-compact) marks consumed cells by negating their values, but the non-compact reset only rewrites the mask: after a search, '
+                  'restart=True / keep=False do not make the consumed cells available again, so the same call sequence on one object returns different matches', g.line)
